@@ -70,7 +70,7 @@ def all_paths(
     exist. If *recursive* is enabled, all files belonging to *project* that are
     recursive children of *paths* are also added.
 
-    Directories are filtered out.
+    Directories and symbolic links are filtered out.
     """
     if recursive:
         result: set[Path] = set()
@@ -86,7 +86,13 @@ def all_paths(
                 }
     else:
         result = set(paths)
-    return [_determine_license_path(path) for path in result if path.is_file()]
+    # Symlinks are never covered files, and their target may lie outside of
+    # the project.
+    return [
+        _determine_license_path(path)
+        for path in result
+        if path.is_file() and not path.is_symlink()
+    ]
 
 
 def verify_paths_comment_style(
